@@ -86,28 +86,19 @@ def _is_doc(st):
     return isinstance(st, ast.Expr) and isinstance(st.value, ast.Constant) and isinstance(st.value.value, str)
 
 
+_SD_SIG = "{R : Type} [Zero R] [One R] [Add R] [Mul R] [Div R] [DecidableEq R]"
+
+
 def _safe_divide(fn: ast.FunctionDef) -> str:
-    """torch.where(other == 0, torch.tensor([0.0], …), input / other) -> if other = 0 then 0 else input / other"""
+    """scalar reading of safe_divide: torch.where(c, a, b) -> if c then a else b; `x == k` used as a value -> indicator;
+    + * / on tensors -> the scalar operation; torch.tensor([k], …).to(…) / zeros_like -> k"""
     body = [s for s in fn.body if not _is_doc(s)]
-    if len(body) == 2 and isinstance(body[0], ast.Assign) and isinstance(body[1], ast.Return) \
-            and ast.unparse(body[1].value) == ast.unparse(body[0].targets[0]):
-        call = body[0].value
-    elif len(body) == 1 and isinstance(body[0], ast.Return):
-        call = body[0].value
-    else:
-        raise Untranslatable("unexpected body of safe_divide")
-    if not (isinstance(call, ast.Call) and ast.unparse(call.func) == "torch.where" and len(call.args) == 3):
-        raise Untranslatable("safe_divide is not a single torch.where")
     params = [a.arg for a in fn.args.args]
     if len(params) != 2:
         raise Untranslatable("safe_divide does not take two tensors")
+    env: dict[str, str] = {}
 
-    def val(n):
-        if isinstance(n, ast.Name) and n.id in params:
-            return n.id
-        if isinstance(n, ast.BinOp) and isinstance(n.op, ast.Div):
-            return f"({val(n.left)} / {val(n.right)})"
-        # torch.tensor([c], dtype=…).to(device) / torch.zeros_like(x) / constants
+    def const(n):
         m = n
         while isinstance(m, ast.Call) and isinstance(m.func, ast.Attribute) and m.func.attr == "to":
             m = m.func.value
@@ -115,19 +106,50 @@ def _safe_divide(fn: ast.FunctionDef) -> str:
             m = m.args[0]
             if isinstance(m, (ast.List, ast.Tuple)) and len(m.elts) == 1:
                 m = m.elts[0]
-        if isinstance(m, ast.Constant) and isinstance(m.value, (int, float)) and m.value == 0:
-            return "0"
+        if isinstance(m, ast.Call) and ast.unparse(m.func) in ("torch.zeros_like", "torch.ones_like"):
+            return "0" if "zeros" in ast.unparse(m.func) else "1"
+        if isinstance(m, ast.Constant) and isinstance(m.value, (int, float)) and not isinstance(m.value, bool) and m.value in (0, 1):
+            return str(int(m.value))
+        return None
+
+    def cond(n):
+        if isinstance(n, ast.Compare) and len(n.ops) == 1 and isinstance(n.ops[0], (ast.Eq, ast.NotEq)):
+            k = const(n.comparators[0])
+            if k is None:
+                raise Untranslatable(f"condition `{ast.unparse(n)}`")
+            c = f"{val(n.left)} = {k}"
+            return c if isinstance(n.ops[0], ast.Eq) else f"¬ ({c})"
+        raise Untranslatable(f"condition `{ast.unparse(n)}`")
+
+    def val(n):
+        if isinstance(n, ast.Name) and n.id in params:
+            return n.id
+        if isinstance(n, ast.Name) and n.id in env:
+            return env[n.id]
+        k = const(n)
+        if k is not None:
+            return k
+        if isinstance(n, ast.BinOp) and type(n.op) in (ast.Div, ast.Add, ast.Mult):
+            sym = {ast.Div: "/", ast.Add: "+", ast.Mult: "*"}[type(n.op)]
+            return f"({val(n.left)} {sym} {val(n.right)})"
+        if isinstance(n, ast.Compare):
+            return f"(if {cond(n)} then 1 else 0)"
+        if isinstance(n, ast.Call) and ast.unparse(n.func) == "torch.where" and len(n.args) == 3:
+            return f"(if {cond(n.args[0])} then {val(n.args[1])} else {val(n.args[2])})"
         raise Untranslatable(f"value `{ast.unparse(n)}`")
 
-    c = call.args[0]
-    if not (isinstance(c, ast.Compare) and len(c.ops) == 1 and isinstance(c.ops[0], ast.Eq)
-            and isinstance(c.comparators[0], ast.Constant) and isinstance(c.comparators[0].value, (int, float))
-            and c.comparators[0].value == int(c.comparators[0].value) and int(c.comparators[0].value) in (0, 1)):
-        raise Untranslatable(f"condition `{ast.unparse(c)}`")
-    cond = f"{val(c.left)} = {int(c.comparators[0].value)}"
+    ret = None
+    for st in body:
+        if isinstance(st, ast.Assign) and len(st.targets) == 1 and isinstance(st.targets[0], ast.Name):
+            env[st.targets[0].id] = val(st.value)
+        elif isinstance(st, ast.Return):
+            ret = val(st.value)
+        else:
+            raise Untranslatable(f"unexpected statement `{ast.unparse(st)[:50]}`")
+    if ret is None:
+        raise Untranslatable("no return")
     ps = " ".join(f"({p} : R)" for p in params)
-    return (f"def safe_divide {{R : Type}} [Zero R] [One R] [Div R] [DecidableEq R] {ps} : R :=\n"
-            f"  if {cond} then {val(call.args[1])} else {val(call.args[2])}\n")
+    return f"def safe_divide {_SD_SIG} {ps} : R :=\n  {ret}\n"
 
 
 class TensorTr:
@@ -268,7 +290,7 @@ def _c02_extra():
             status[name] = f"skipped: {e}"
 
     emit("safe_divide", lambda: _safe_divide(find_function(tree, "safe_divide")),
-         "def safe_divide {R : Type} [Zero R] [One R] [Div R] [DecidableEq R] (a b : R) : R := Cx.safeDiv a b\n")
+         f"def safe_divide {_SD_SIG} (a b : R) : R := Cx.safeDiv a b\n")
     emit("complex_dot_product", lambda: _tensor_def("complex_dot_product", find_function(tree, "complex_dot_product"), "(Cx.Cpx R)", "(Cx.Cpx R)"),
          f"def complex_dot_product {_RVARS} (a b : Tensor (Cx.Cpx R)) (dim : List Int) : Tensor (Cx.Cpx R) := Cx.cdotT a b dim\n")
     emit("reduce_operator", lambda: _tensor_def("reduce_operator", find_function(tree, "reduce_operator"), "(Cx.Cpx R)", "(Cx.Cpx R)"),
